@@ -43,7 +43,11 @@ Execs == {"e1", "e2"}
 Never == 9
 
 EagerSrcs == {"ready_val", "ready_err", "ready_exc", "before_val", "after_val", "after_err", "after_exc",
-              "on_after_val", "run_val", "run_throw", "acontract_val"}
+              "on_after_val", "run_val", "run_throw", "acontract_val",
+              "sready_val", "sready_err", "sready_exc", "safter_val", "safter_exc"}
+\* the source is a SharedFuture (complete before / after the steps are attached): the first step is attached to the shared
+\* state, which keeps its Result: a value that the first step consumes or forwards is a copy
+SharedSrcs == {"sready_val", "sready_err", "sready_exc", "safter_val", "safter_exc"}
 LazySrcs  == {"task_val", "task_err", "task_exc", "sched_val", "sched_throw", "lcontract_val"}
 OnSrcs    == {"on_after_val", "run_val", "run_throw"}          \* holder starts as FutureOn (inherited e1)
 
@@ -96,7 +100,7 @@ Runs(arg, r) == \/ arg = "R"
 (***************************************************************************)
 Acc0 == [cur |-> Val(0), invoked |-> <<>>, ran |-> <<>>, inh |-> "inline", on |-> FALSE,
          sub |-> [e \in Execs |-> 0], calls |-> [e \in Execs |-> 0], drops |-> [e \in Execs |-> 0],
-         allocs |-> 0, copies |-> 0, valid |-> TRUE]
+         allocs |-> 0, copies |-> 0, shared |-> FALSE, valid |-> TRUE]
 
 \* one submission to executor e under rejection table rej; returns <<acc', dropped>>
 Submit(acc, e, rej) ==
@@ -110,6 +114,9 @@ Submit(acc, e, rej) ==
 Source(src, rej, headExec) ==
   LET a0 == [Acc0 EXCEPT !.allocs = 1] IN
   CASE src \in {"ready_val", "before_val", "after_val", "task_val"} /\ headExec = "none" -> [a0 EXCEPT !.cur = Val(1)]
+    [] src \in {"sready_val", "safter_val"} -> [a0 EXCEPT !.cur = Val(1), !.shared = TRUE]
+    [] src = "sready_err" -> [a0 EXCEPT !.cur = Err, !.shared = TRUE]
+    [] src \in {"sready_exc", "safter_exc"} -> [a0 EXCEPT !.cur = Exc(3), !.shared = TRUE]
     [] src \in {"ready_err", "after_err", "task_err"} /\ headExec = "none" -> [a0 EXCEPT !.cur = Err]
     [] src \in {"ready_exc", "after_exc"} -> [a0 EXCEPT !.cur = Exc(3)]
     [] src = "task_exc" /\ headExec = "none" -> [a0 EXCEPT !.cur = Exc(3)]
@@ -151,7 +158,9 @@ StepFn(acc, i, s, rej) ==
                  !.on = (@ \/ s.att \in Execs),
                  !.allocs = @ + 1 + (IF run THEN InnerAllocs(s.beh) ELSE 0),
                  \* the only copy of a value the library may make: reading it out of a SharedFuture's state (which keeps it)
-                 !.copies = @ + (IF run /\ s.beh \in {"shared_ready", "shared_pending"} THEN 1 ELSE 0),
+                 !.copies = @ + (IF run /\ s.beh \in {"shared_ready", "shared_pending"} THEN 1 ELSE 0)
+                              + (IF acc.shared /\ input.st = "val" /\ (~run \/ s.arg = "V") THEN 1 ELSE 0),
+                 !.shared = FALSE,
                  !.valid = (@ /\ ok)]
 
 RECURSIVE Fold(_, _, _, _)
